@@ -1,0 +1,191 @@
+//go:build verif
+
+package kapacitor
+
+// Verification hooks for the join / union nodes and the circular queue (property C12 of the /verif
+// framework). Add-only; compiled only with `-tags verif`. They build the REAL JoinNode / UnionNode from a
+// pipeline node (as task.go does), replace the output edges by a capturing edge, and let a harness call
+// the MultiReceiver methods (Point / BufferedBatch / Barrier / Delete / Finish) in an EXPLICIT arrival
+// order - the order that the multiConsumer goroutines would otherwise choose. Plus read-only views of the
+// unexported buffers.
+
+import (
+	"sort"
+	"time"
+
+	"github.com/influxdata/kapacitor/edge"
+	"github.com/influxdata/kapacitor/expvar"
+	"github.com/influxdata/kapacitor/pipeline"
+	"github.com/influxdata/kapacitor/timer"
+)
+
+// verifCaptureEdge records every message collected on it.
+type verifCaptureEdge struct {
+	typ  pipeline.EdgeType
+	msgs []edge.Message
+}
+
+func (e *verifCaptureEdge) Collect(m edge.Message) error          { e.msgs = append(e.msgs, m); return nil }
+func (e *verifCaptureEdge) Emit() (edge.Message, bool)            { return nil, false }
+func (e *verifCaptureEdge) Close() error                          { return nil }
+func (e *verifCaptureEdge) Abort()                                {}
+func (e *verifCaptureEdge) Type() pipeline.EdgeType               { return e.typ }
+func (e *verifCaptureEdge) Collected() int64                      { return int64(len(e.msgs)) }
+func (e *verifCaptureEdge) Emitted() int64                        { return 0 }
+func (e *verifCaptureEdge) CollectedVar() expvar.IntVar           { return &expvar.Int{} }
+func (e *verifCaptureEdge) EmittedVar() expvar.IntVar             { return &expvar.Int{} }
+func (e *verifCaptureEdge) ReadGroupStats(func(*edge.GroupStats)) {}
+
+func (e *verifCaptureEdge) take() []edge.Message {
+	m := e.msgs
+	e.msgs = nil
+	return m
+}
+
+// VerifCQState returns a copy of the backing slice and the indexes of a CircularQueue.
+func VerifCQState[T any](q *CircularQueue[T]) (data []T, head, tail, length int) {
+	return append([]T(nil), q.data...), q.head, q.tail, q.Len
+}
+
+// ---------------------------------------------------------------------------------------------
+
+// VerifUnion is a real UnionNode whose parents are replaced by direct calls.
+type VerifUnion struct {
+	n   *UnionNode
+	out *verifCaptureEdge
+}
+
+// VerifNewUnion builds the UnionNode for pipeline node `p` with `parents` parents; the buffers are
+// initialised exactly as runUnion does.
+func VerifNewUnion(p *pipeline.UnionNode, parents int) (*VerifUnion, error) {
+	n, err := newUnionNode(nil, p, nil)
+	if err != nil {
+		return nil, err
+	}
+	out := &verifCaptureEdge{typ: p.Provides()}
+	n.ins = make([]edge.StatsEdge, parents)
+	n.outs = []edge.StatsEdge{out}
+	n.timer = timer.NewNoOp()
+	n.sources = make([]*CircularQueue[timeMessage], len(n.ins))
+	for i := range n.ins {
+		n.sources[i] = NewCircularQueue[timeMessage]()
+	}
+	n.lowMarks = make([]time.Time, len(n.ins))
+	return &VerifUnion{n: n, out: out}, nil
+}
+
+func (u *VerifUnion) Point(src int, p edge.PointMessage) ([]edge.Message, error) {
+	err := u.n.Point(src, p)
+	return u.out.take(), err
+}
+func (u *VerifUnion) BufferedBatch(src int, b edge.BufferedBatchMessage) ([]edge.Message, error) {
+	err := u.n.BufferedBatch(src, b)
+	return u.out.take(), err
+}
+func (u *VerifUnion) Barrier(src int, b edge.BarrierMessage) ([]edge.Message, error) {
+	err := u.n.Barrier(src, b)
+	return u.out.take(), err
+}
+func (u *VerifUnion) Finish() ([]edge.Message, error) {
+	err := u.n.Finish()
+	return u.out.take(), err
+}
+
+// State reports, per source, the queue indexes (head, tail, Len, len(data)) and the low mark
+// (Unix nanoseconds; ok=false for the zero time).
+func (u *VerifUnion) State() (idx [][4]int, marks []int64, marksSet []bool) {
+	for i, q := range u.n.sources {
+		idx = append(idx, [4]int{q.head, q.tail, q.Len, len(q.data)})
+		marks = append(marks, u.n.lowMarks[i].UnixNano())
+		marksSet = append(marksSet, !u.n.lowMarks[i].IsZero())
+	}
+	return
+}
+
+// ---------------------------------------------------------------------------------------------
+
+// VerifJoin is a real JoinNode whose parents are replaced by direct calls.
+type VerifJoin struct {
+	n   *JoinNode
+	out *verifCaptureEdge
+}
+
+// VerifNewJoin builds the JoinNode for pipeline node `p` (newJoinNode: fill option decoding etc.).
+func VerifNewJoin(p *pipeline.JoinNode, parents int) (*VerifJoin, error) {
+	n, err := newJoinNode(nil, p, nil)
+	if err != nil {
+		return nil, err
+	}
+	out := &verifCaptureEdge{typ: p.Provides()}
+	n.ins = make([]edge.StatsEdge, parents)
+	n.outs = []edge.StatsEdge{out}
+	n.timer = timer.NewNoOp()
+	return &VerifJoin{n: n, out: out}, nil
+}
+
+func (j *VerifJoin) Point(src int, p edge.PointMessage) ([]edge.Message, error) {
+	err := j.n.Point(src, p)
+	return j.out.take(), err
+}
+func (j *VerifJoin) BufferedBatch(src int, b edge.BufferedBatchMessage) ([]edge.Message, error) {
+	err := j.n.BufferedBatch(src, b)
+	return j.out.take(), err
+}
+func (j *VerifJoin) Barrier(src int, b edge.BarrierMessage) ([]edge.Message, error) {
+	err := j.n.Barrier(src, b)
+	return j.out.take(), err
+}
+func (j *VerifJoin) Delete(src int, d edge.DeleteGroupMessage) ([]edge.Message, error) {
+	err := j.n.Delete(src, d)
+	return j.out.take(), err
+}
+func (j *VerifJoin) Finish() ([]edge.Message, error) {
+	err := j.n.Finish()
+	return j.out.take(), err
+}
+
+// Groups reports, per group (sorted by group ID): the pending set times (Unix nanoseconds, sorted) with
+// the number of sets queued at each, the heads (0 with set=false for the zero time) and oldestTime.
+type VerifJoinGroupState struct {
+	Group     string
+	Times     []int64
+	Counts    []int
+	Heads     []int64
+	HeadsSet  []bool
+	Oldest    int64
+	OldestSet bool
+}
+
+func (j *VerifJoin) Groups() []VerifJoinGroupState {
+	var out []VerifJoinGroupState
+	for id, g := range j.n.groups {
+		s := VerifJoinGroupState{Group: string(id), Oldest: g.oldestTime.UnixNano(), OldestSet: !g.oldestTime.IsZero()}
+		lens := map[int64]int{}
+		for t, q := range g.sets {
+			s.Times = append(s.Times, t.UnixNano())
+			lens[t.UnixNano()] = q.Len
+		}
+		sort.Slice(s.Times, func(a, b int) bool { return s.Times[a] < s.Times[b] })
+		for _, t := range s.Times {
+			s.Counts = append(s.Counts, lens[t])
+		}
+		for _, h := range g.head {
+			s.Heads = append(s.Heads, h.UnixNano())
+			s.HeadsSet = append(s.HeadsSet, !h.IsZero())
+		}
+		out = append(out, s)
+	}
+	sort.Slice(out, func(a, b int) bool { return out[a].Group < out[b].Group })
+	return out
+}
+
+// Buffered reports how many points wait in the join.on() buffers (match / specific), summed over groups.
+func (j *VerifJoin) Buffered() (match, specific int) {
+	for _, q := range j.n.matchGroupsBuffer {
+		match += q.Len
+	}
+	for _, q := range j.n.specificGroupsBuffer {
+		specific += q.Len
+	}
+	return
+}
